@@ -42,7 +42,7 @@ def run(tier):
             groups = rng.sample(groups, min(len(groups), 220))
         for g in groups:
             layout = rng.choice(["scalar", "time", "time_lat", "flat"])
-            kind = rng.choice(["1d", "1d", "2d"])
+            kind = rng.choice(["1d", "1d", "2d", "2dnu"])
             scale = rng.choice([1.0, 0.125])
             batch = g[:1] if layout == "scalar" else g
             ctx = {"f": batch[0]["f"], "layout": layout, "kind": kind, "frequency_scale": scale}
@@ -115,13 +115,18 @@ def run(tier):
 
             def mk(E):
                 return create_1d_spectrum(f, E[None, :], np.array([0]), np.array([0.0]), np.array([0.0]), depth=np.array([np.inf]))
-            s1, s2, ssum, ssc = mk(E1), mk(E2), mk(E1) + mk(E2), mk(E1).multiply(np.full((1, nf), cst))
+            s1, s2 = mk(E1), mk(E2)
+            # the sum is formed from the SAME objects whose moments are taken afterwards (and a difference restores nothing)
+            ssum, sdif, ssc = s1 + s2, s2 - s1, s1.multiply(np.full((1, nf), cst))
             evals += 1
             ctx = {"f": list(map(float, f)), "E1": list(map(float, E1)), "E2": list(map(float, E2)), "c": cst, "band": [fmin, float(fmax)]}
             for n in range(5):
                 a, b = float(s1.frequency_moment(n, fmin, fmax).values[0]), float(s2.frequency_moment(n, fmin, fmax).values[0])
                 if not close(float(ssum.frequency_moment(n, fmin, fmax).values[0]), a + b, 1e-10):
                     chk.violation("law:sum", "moments of a sum are not the sum of the moments", dict(ctx, n=n))
+                    break
+                if not close(float(sdif.frequency_moment(n, fmin, fmax).values[0]), b - a, 1e-10):
+                    chk.violation("law:difference", "moments of a difference are not the difference of the moments", dict(ctx, n=n))
                     break
                 if not close(float(ssc.frequency_moment(n, fmin, fmax).values[0]), cst * a, 1e-10):
                     chk.violation("law:scale", "scaling the spectrum does not scale the moment", dict(ctx, n=n))
@@ -161,7 +166,7 @@ def run(tier):
                     hi2 = sc.INF2
                 line = {"f": f, "e": e, "nan": nan}
                 layout = rng.choice(["scalar", "time"])
-                s = sc.build([line], layout, rng.choice(["1d", "2d"]))
+                s = sc.build([line], layout, rng.choice(["1d", "2d", "2dnu"]))
                 fmin, fmax = sc.band_of({"lo2": lo2, "hi2": hi2})
                 m2 = []
                 for n in range(5):
